@@ -10,6 +10,11 @@ import SpVerif.Props.C15
 import SpVerif.Props.C16
 import SpVerif.Props.C17
 import SpVerif.Props.C20
+import SpVerif.Props.C06Fixed
+import SpVerif.Props.C06Var
+import SpVerif.Props.C07
+import SpVerif.Props.C12
+import SpVerif.Props.C18
 /-!
 # C10 — decoding arbitrary or truncated input fails only in documented ways
 
@@ -621,5 +626,122 @@ theorem C10_frame_prefix (f : Frame) (ft : FrameType) (p : FrameProps) (wf : C17
       omega
 
 end Uslp
+
+/-! ## stage 2 — the eight CFDP PDU decoders, the file-directive base, the factory, reserved messages -/
+section CfdpPdus
+open SpVerif.CfdpHeader SpVerif.FileDirective SpVerif.Factory
+
+/-- `AbstractFileDirectiveBase` / `FileDirectivePduBase.unpack` -/
+theorem C10_directive_base (d : Bytes) : Documented (FileDirective.unpack d) := C06Fixed.C06_directive_documented d
+
+/-- a buffer that ends before the directive code (in particular every strict prefix of header ‖ code) is rejected -/
+theorem C10_directive_base_prefix (fd : FileDirective) (wf : C05.WF fd.header) (k : Nat)
+    (hk : k ≤ (C05.Spec.octets fd.header).length) (tail : Bytes) :
+    Rejected (FileDirective.unpack ((C05.Spec.octets fd.header ++ tail).take k)) := by
+  apply Rejected.of_documented (C10_directive_base _)
+  intro a ha
+  unfold FileDirective.unpack at ha
+  obtain ⟨h, hu, hrest⟩ := bind_ok_first ha
+  have hfull := pdu_header_unpack_append _ ((C05.Spec.octets fd.header ++ tail).drop k) h hu
+  rw [List.take_append_drop, C05.C05_roundtrip fd.header wf tail] at hfull
+  cases hfull
+  have hl : ((C05.Spec.octets fd.header ++ tail).take k).length ≤ fd.header.headerLen := by
+    rw [(C05.C05_len fd.header wf).2.1]; simp only [List.length_take]; omega
+  have := C06Fixed.C06_directive_short _ fd.header hu hl
+  unfold FileDirective.unpack at this
+  rw [ha] at this
+  cases this
+
+theorem C10_ack (d : Bytes) : Documented (Ack.Ack.unpack d) := C06Fixed.C06_ack_documented d
+theorem C10_prompt (d : Bytes) : Documented (Prompt.Prompt.unpack d) := C06Fixed.C06_prompt_documented d
+theorem C10_keep_alive (d : Bytes) : Documented (KeepAlive.KeepAlive.unpack d) := C06Fixed.C06_keepalive_documented d
+theorem C10_nak (d : Bytes) : Documented (Nak.Nak.unpack d) := C06Fixed.C06_nak_documented d
+theorem C10_eof (d : Bytes) : Documented (Eof.Eof.unpack d) := C06Var.C06_eof_documented d
+theorem C10_finished (d : Bytes) : Documented (Finished.Finished.unpack d) := C06Var.C06_finished_documented d
+theorem C10_metadata (d : Bytes) : Documented (Metadata.Metadata.unpack d) := C06Var.C06_metadata_documented d
+theorem C10_file_data (d : Bytes) : Documented (FileData.Pdu.unpack d) := C07.C07_documented d
+
+theorem C10_ack_prefix (x : Ack.Ack) (wf : C06Fixed.WFAck x) (k : Nat) (hk : k < (C06Fixed.Spec.ack x).length) :
+    Rejected (Ack.Ack.unpack ((C06Fixed.Spec.ack x).take k)) :=
+  .of_err (C06Fixed.C06_ack_truncated x wf k hk) rfl
+
+theorem C10_prompt_prefix (x : Prompt.Prompt) (wf : C06Fixed.WFPrompt x) (k : Nat)
+    (hk : k < (C06Fixed.Spec.prompt x).length) :
+    Rejected (Prompt.Prompt.unpack ((C06Fixed.Spec.prompt x).take k)) :=
+  .of_err (C06Fixed.C06_prompt_truncated x wf k hk) rfl
+
+theorem C10_keep_alive_prefix (x : KeepAlive.KeepAlive) (wf : C06Fixed.WFKeepAlive x) (k : Nat)
+    (hk : k < (C06Fixed.Spec.keepAlive x).length) :
+    Rejected (KeepAlive.KeepAlive.unpack ((C06Fixed.Spec.keepAlive x).take k)) :=
+  .of_err (C06Fixed.C06_keepalive_truncated x wf k hk) rfl
+
+theorem C10_nak_prefix (x : Nak.Nak) (wf : C06Fixed.WFNak x) (k : Nat) (hk : k < (C06Fixed.Spec.nak x).length) :
+    Rejected (Nak.Nak.unpack ((C06Fixed.Spec.nak x).take k)) :=
+  .of_err (C06Fixed.C06_nak_truncated x wf k hk) rfl
+
+theorem C10_eof_prefix (x : Eof.Eof) (wf : C06Var.WFEof x) (k : Nat) (hk : k < (C06Var.Spec.eof x).length) :
+    Rejected (Eof.Eof.unpack ((C06Var.Spec.eof x).take k)) :=
+  .of_err (C06Var.C06_eof_truncated x wf k hk) rfl
+
+theorem C10_finished_prefix (x : Finished.Finished) (wf : C06Var.WFFin x) (k : Nat)
+    (hk : k < (C06Var.Spec.finished x).length) :
+    Rejected (Finished.Finished.unpack ((C06Var.Spec.finished x).take k)) :=
+  .of_err (C06Var.C06_finished_truncated x wf k hk) rfl
+
+theorem C10_metadata_prefix (x : Metadata.Metadata) (wf : C06Var.WFMd x) (k : Nat)
+    (hk : k < (C06Var.Spec.metadata x).length) :
+    Rejected (Metadata.Metadata.unpack ((C06Var.Spec.metadata x).take k)) :=
+  .of_err (C06Var.C06_metadata_truncated x wf k hk) rfl
+
+theorem C10_file_data_prefix (x : FileData.Pdu) (wf : C07.WF x) (k : Nat) (hk : k < (C07.Spec.octets x).length) :
+    Rejected (FileData.Pdu.unpack ((C07.Spec.octets x).take k)) :=
+  .of_err (C07.C07_truncated x wf k (by rw [← (C07.C07_len x wf).1]; exact hk)) rfl
+
+/-- the three raw-buffer inspectors, `PduFactory.from_raw` and `from_raw_to_holder` -/
+theorem C10_pdu_type (d : Bytes) : Documented (pduType d) := (C12.C12_documented d).1
+theorem C10_is_file_directive (d : Bytes) : Documented (isFileDirective d) := (C12.C12_documented d).2.1
+theorem C10_pdu_directive_type (d : Bytes) : Documented (pduDirectiveType d) := (C12.C12_documented d).2.2.1
+theorem C10_factory (d : Bytes) : Documented (fromRaw d) := (C12.C12_documented d).2.2.2
+theorem C10_factory_holder (d : Bytes) : Documented (fromRawToHolder d) := (C12.C12_documented d).2.2.2
+
+/-- every strict prefix of a packed PDU of any of the eight kinds is rejected by the factory -/
+theorem C10_factory_prefix (p : AnyPdu) (wf : C12.WFPdu p) (k : Nat) (hk : k < (C12.Spec.octets p).length) :
+    Rejected (fromRaw ((C12.Spec.octets p).take k)) ∧ Rejected (fromRawToHolder ((C12.Spec.octets p).take k)) :=
+  ⟨.of_err (C12.C12_truncated p wf k hk) rfl, .of_err (C12.C12_truncated p wf k hk) rfl⟩
+
+/-- the inspectors need one octet (`pdu_type`, `is_file_directive`) resp. the octet behind the header -/
+theorem C10_pdu_type_prefix : Rejected (pduType []) ∧ Rejected (isFileDirective []) ∧ Rejected (pduDirectiveType []) := by
+  refine ⟨⟨.value, rfl, rfl⟩, ⟨.value, rfl, rfl⟩, ⟨.value, rfl, rfl⟩⟩
+
+end CfdpPdus
+
+section Reserved
+open SpVerif.Tlv SpVerif.MsgToUser
+
+/-- **reserved CFDP messages**: `MessageToUserTlv.unpack(raw).to_reserved_msg_tlv()` and, on whatever
+    it returns, all eight getters and the classification fail only with documented errors, for ANY
+    octet string (fields cut short, wrong widths, LV lengths beyond the value) -/
+theorem C10_reserved (d : Bytes) :
+    Documented (MessageToUserTlv.unpack d >>= toReservedMsgTlv) ∧
+    ∀ m r, MessageToUserTlv.unpack d = .ok m → toReservedMsgTlv m = .ok (some r) →
+      Documented r.getProxyPutRequestParams ∧ Documented r.getProxyPutResponseParams ∧
+      Documented r.getProxyClosureRequested ∧ Documented r.getProxyTransmissionMode ∧
+      Documented r.getOriginatingTransactionId ∧ Documented r.getDirListingRequestParams ∧
+      Documented r.getDirListingResponseParams ∧ Documented r.getDirListingOptions ∧
+      (∃ k, C18.classify r = .ok k) :=
+  ⟨Documented.bind (C10_msg_to_user d) fun m _ => (C18.C18_documented m).1,
+   fun m r _ hr => (C18.C18_documented m).2 r hr⟩
+
+/-- the conversion on ANY message-to-user object (decoded or constructed) -/
+theorem C10_reserved_conversion (m : MessageToUserTlv) : Documented (toReservedMsgTlv m) :=
+  (C18.C18_documented m).1
+
+/-- strict prefixes of a packed message-to-user TLV never reach the conversion -/
+theorem C10_reserved_prefix (v : Bytes) (wf : C08.WFValue v) (k : Nat) (hk : k < (C08.Spec.msgToUser v).length) :
+    Rejected (MessageToUserTlv.unpack ((C08.Spec.msgToUser v).take k) >>= toReservedMsgTlv) := by
+  obtain ⟨e, he, hd⟩ := C10_msg_to_user_prefix v wf k hk
+  exact ⟨e, by rw [he]; rfl, hd⟩
+
+end Reserved
 
 end SpVerif.Props.C10
